@@ -29,6 +29,10 @@ pub enum Src {
     Total,
     Lot,
     Implied,
+    /// the same fact stated by a SALE: `-2 x @@ 2r y`, `-2 x {{2r y}}`, `-1 x @ r y`
+    SaleTotal,
+    SaleLotTotal,
+    SaleCost,
 }
 
 /// 1 x = rate y, stated on `date` by `src`.
@@ -63,6 +67,9 @@ pub fn alphabet(ncom: usize) -> Vec<Fact> {
             v.push(Fact { date: 20, x, y, rate: 2, src: Src::Total });
             v.push(Fact { date: 20, x, y, rate: 2, src: Src::Lot });
             v.push(Fact { date: 20, x, y, rate: 2, src: Src::Implied });
+            v.push(Fact { date: 20, x, y, rate: 2, src: Src::SaleTotal });
+            v.push(Fact { date: 20, x, y, rate: 3, src: Src::SaleLotTotal });
+            v.push(Fact { date: 30, x, y, rate: 2, src: Src::SaleCost });
             // reverse direction: 1 y = 2 x
             v.push(Fact { date: 20, x: y, y: x, rate: 2, src: Src::Cost });
         }
@@ -71,11 +78,22 @@ pub fn alphabet(ncom: usize) -> Vec<Fact> {
 }
 
 pub fn render(ncom: usize, facts: &[Fact]) -> (String, String) {
-    let mut text = String::from("2020/01/01 declare\n");
-    for c in &NAMES[..ncom] {
-        text.push_str(&format!("  Z  0 {}\n", c));
+    render_opt(ncom, facts, true)
+}
+
+/// `declare = false`: no prelude, the commodities become known only through the facts themselves
+/// (a price-database line may then mention two commodities the ledger has never seen)
+pub fn render_opt(ncom: usize, facts: &[Fact], declare: bool) -> (String, String) {
+    let mut text = String::new();
+    if declare {
+        text.push_str("2020/01/01 declare\n");
+        for c in &NAMES[..ncom] {
+            text.push_str(&format!("  Z  0 {}\n", c));
+        }
+        text.push('\n');
+    } else {
+        text.push_str("; no commodity is declared\n\n");
     }
-    text.push('\n');
     let mut db = String::new();
     for f in facts {
         let (x, y, r, d) = (NAMES[f.x], NAMES[f.y], f.rate, f.date);
@@ -85,6 +103,9 @@ pub fn render(ncom: usize, facts: &[Fact]) -> (String, String) {
             Src::Total => text.push_str(&format!("2024/01/{} f\n  P  2 {} @@ {} {}\n  Q  -{} {}\n\n", d, x, 2 * r, y, 2 * r, y)),
             Src::Lot => text.push_str(&format!("2024/01/{} f\n  P  1 {} {{{} {}}}\n  Q  -{} {}\n\n", d, x, r, y, r, y)),
             Src::Implied => text.push_str(&format!("2024/01/{} f\n  P  1 {}\n  Q  -{} {}\n\n", d, x, r, y)),
+            Src::SaleTotal => text.push_str(&format!("2024/01/{} f\n  P  -2 {} @@ {} {}\n  Q  {} {}\n\n", d, x, 2 * r, y, 2 * r, y)),
+            Src::SaleLotTotal => text.push_str(&format!("2024/01/{} f\n  P  -2 {} {{{{{} {}}}}}\n  Q  {} {}\n\n", d, x, 2 * r, y, 2 * r, y)),
+            Src::SaleCost => text.push_str(&format!("2024/01/{} f\n  P  -1 {} @ {} {}\n  Q  {} {}\n\n", d, x, r, y, r, y)),
         }
     }
     (text, db)
@@ -180,6 +201,10 @@ pub fn refprice_q(ncom: usize, facts: &[GFact], from: usize, to: usize, qd: u32)
 }
 
 fn judge(ncom: usize, facts: &[Fact], text: &str, db: &str, dbpath: &std::path::Path) -> (Outcome, u64, u64) {
+    judge_known(ncom, facts, text, db, dbpath, [true; 4])
+}
+
+fn judge_known(ncom: usize, facts: &[Fact], text: &str, db: &str, dbpath: &std::path::Path, known: [bool; 4]) -> (Outcome, u64, u64) {
     let dbopt = if db.is_empty() {
         None
     } else {
@@ -196,6 +221,10 @@ fn judge(ncom: usize, facts: &[Fact], text: &str, db: &str, dbpath: &std::path::
         let mut ties = 0;
         for from in 0..ncom {
             for to in 0..ncom {
+                if !known[from] || !known[to] {
+                    // a commodity that occurs nowhere: what a query about it answers is not C09's business
+                    continue;
+                }
                 for qd in QD {
                     conversions += 1;
                     let exp = refprice(ncom, facts, from, to, qd);
@@ -313,6 +342,51 @@ fn run(ctx: &mut Ctx) {
                 let simple = t.iter().all(|f| f.rate == 2 || f.date == 10);
                 if seen.iter().all(|s| *s) && (ctx.tier == Tier::Thorough || simple) {
                     emit(ctx, 4, t.to_vec(), false);
+                }
+            }
+        }
+    }
+    // price-database-only chains over commodities the ledger never mentions: every triple of database facts that
+    // touches all four commodities, in all 6 file orders of the three lines, without any declaration
+    {
+        let dbf: Vec<Fact> = a4.iter().filter(|f| f.src == Src::Db && (ctx.tier == Tier::Thorough || f.date == 10)).cloned().collect();
+        const PERMS: [[usize; 3]; 6] = [[0, 1, 2], [0, 2, 1], [1, 0, 2], [1, 2, 0], [2, 0, 1], [2, 1, 0]];
+        for i in 0..dbf.len() {
+            for j in i + 1..dbf.len() {
+                for k in j + 1..dbf.len() {
+                    let t = [dbf[i], dbf[j], dbf[k]];
+                    let mut seen = [false; 4];
+                    for f in &t {
+                        seen[f.x] = true;
+                        seen[f.y] = true;
+                    }
+                    if !seen.iter().all(|s| *s) {
+                        continue;
+                    }
+                    for perm in PERMS {
+                        if !ctx.next_is_mine() {
+                            ctx.skip_cases(1);
+                            continue;
+                        }
+                        let ordered: Vec<Fact> = perm.iter().map(|x| t[*x]).collect();
+                        let (text, db) = render_opt(4, &ordered, false);
+                        let mut conv = 0;
+                        let mut must = 0;
+                        ctx.case(
+                            || format!("{}-- price db --\n{}", text, db),
+                            || {
+                                let (o, c, m) = judge_known(4, &t, &text, &db, &dbpath, seen);
+                                conv = c;
+                                must = m;
+                                match o.verdict {
+                                    crate::fw::Verdict::Pass => Outcome::pass(format!("undeclared/{}", o.class)),
+                                    _ => o,
+                                }
+                            },
+                        );
+                        ctx.count("transitions", conv);
+                        ctx.count("validated", must);
+                    }
                 }
             }
         }
